@@ -367,6 +367,8 @@ class LockStep:
                     self.ctl_set(idx, stp, drain)
                 elif kind == "fw":
                     self.ctl_fw(idx, stp, drain)
+                elif kind == "reload":
+                    self.reload(idx, stp[1])
                 else:
                     raise AssertionError(kind)
             except PumpDied:
@@ -386,6 +388,35 @@ class LockStep:
                     raise HarnessError("monitor hook failed in final drain") from eng.hook_error
                 self.judge_sends()
         return out
+
+    def reload(self, idx, ext):
+        """The node table goes through the persistence file and back (what a restart does to it): the tree survives,
+        the transient per-node state (sleep, withheld replies, desired values, reboot flag) starts empty again."""
+        import os
+        import tempfile
+        from mysensors.persistence import Persistence
+
+        out, eng, mdl, gw = self.out, self.eng, self.mdl, self.eng.gw
+        eng.drain()
+        self.judge_sends()
+        d = tempfile.mkdtemp(prefix="vf-reload-")
+        path = os.path.join(d, f"net.{ext}")
+        try:
+            Persistence(gw.sensors, lambda save: (lambda: None), persistence_file=path).save_sensors()
+            gw.sensors.clear()
+            Persistence(gw.sensors, lambda save: (lambda: None), persistence_file=path).safe_load_sensors()
+        except Exception as exc:
+            raise HarnessError(f"reload through {ext} failed at step {idx}") from exc
+        finally:
+            for f in os.listdir(d):
+                os.remove(os.path.join(d, f))
+            os.rmdir(d)
+        mdl.sleeping.clear()
+        mdl.held.clear()
+        mdl.wake_children.clear()
+        mdl.desired.clear()
+        mdl.reboot.clear()
+        out.count("reloads")
 
     def crash(self, idx, stp):
         out, eng = self.out, self.eng
